@@ -136,7 +136,7 @@ inline Sol gen(vf::Rng& r, bool nonfinite, int maxline = 700) {
   if (r.chance(1, 5)) s.nbs = r.range(1, 5);
   int k = r.chance(1, 8) ? 0 : r.range(3, 9);
   for (int i = 0; i < k; ++i) s.options.push_back(r.range(0, 5));
-  if (k >= 3 && k <= 7 && r.chance(1, 3)) { s.options[1] = 3; s.vbtol = true; s.vbtol_val = vf::hostile_double(r, false); }  // k listed, count k+2
+  if (k >= 3 && k <= 7 && r.chance(1, 6)) { s.options[1] = 3; s.vbtol = true; s.vbtol_val = vf::hostile_double(r, false); }  // k listed, count k+2
   else if (k >= 2 && s.options[1] == 3) s.options[1] = 1;
   s.ncons = r.chance(1, 6) ? 0 : r.range(1, 12);
   s.nvars = r.chance(1, 10) ? 0 : r.range(1, 14);
